@@ -129,3 +129,90 @@ func (v *FnV) checkInterruptible() {
 	}
 	v.obligs = append(v.obligs, ob)
 }
+
+// premiseCover: for a clause of the form `A ==> B` a cover obligation records
+// whether A can hold at this return. If A can hold at NO return of the function
+// the clause constrains nothing; that is reported as a failure of
+// <fn>#premise:<label> (vacuity guard per clause).
+func (v *FnV) premiseCover(st0 *State, cl *Clause, sc *Scope, obName string) {
+	e := cl.Expr
+	if e == nil || e.Op != "bin" || e.Name != "==>" {
+		return
+	}
+	st := st0.fork()
+	val, err := v.spec(st, e.Args[0], sc)
+	if err != nil {
+		return
+	}
+	name := strings.Replace(obName, "#", "#premise:", 1)
+	ob := &Oblig{Name: name, Fn: v.name, Kind: "premise", Canary: true, Pos: cl.Line,
+		Desc: "the premise of `" + cl.Text + "` is satisfiable at some return"}
+	ob.SMT = v.script(st, sNot(val.S))
+	v.obligs = append(v.obligs, ob)
+}
+
+// inferPatterns: instantiation triggers for a quantifier over `sym` whose body
+// uses the variable only as the index of array reads and in bound comparisons
+// (the shape of the call-log clauses: forall k :: 0 <= k && k < n ==> P(log[k])).
+// Without triggers the solvers give up on goals that need a universally
+// quantified hypothesis to be derived from another one.
+func inferPatterns(body, sym string) []string {
+	var pats []string
+	seen := map[string]bool{}
+	for i := 0; i+len(sym) <= len(body); i++ {
+		if body[i:i+len(sym)] != sym {
+			continue
+		}
+		if i+len(sym) < len(body) {
+			c := body[i+len(sym)]
+			if c != ' ' && c != ')' {
+				continue // part of a longer symbol
+			}
+		}
+		if i > 0 && body[i-1] != ' ' && body[i-1] != '(' {
+			continue
+		}
+		// find the enclosing '(' and its operator
+		depth, j := 0, i-1
+		for ; j >= 0; j-- {
+			if body[j] == ')' {
+				depth++
+			} else if body[j] == '(' {
+				if depth == 0 {
+					break
+				}
+				depth--
+			}
+		}
+		if j < 0 {
+			return nil
+		}
+		k := j + 1
+		for k < len(body) && body[k] != ' ' && body[k] != ')' {
+			k++
+		}
+		op := body[j+1 : k]
+		switch op {
+		case "<=", "<", ">=", ">":
+			continue
+		case "select":
+			// must be the index (last argument) of the select and the array must not mention sym
+			end := i + len(sym)
+			if end < len(body) && body[end] == ')' {
+				term := body[j : end+1]
+				arr := body[k+1 : i-1]
+				if !strings.Contains(arr, sym) {
+					if !seen[term] {
+						seen[term] = true
+						pats = append(pats, term)
+					}
+					continue
+				}
+			}
+			return nil
+		default:
+			return nil
+		}
+	}
+	return pats
+}
